@@ -244,7 +244,7 @@ def rule_truncate_noop(ctx):
     rets = [s for s in f.own_nodes() if isinstance(s, ast.Return) and s.value is None]
     n = 0
     for r in rets:
-        conds = pr.control_conditions(r, f.node)
+        conds = pr.silent_conditions(r, f.node)
         ok = False
         why = 'early return without a recognisable guard'
         if len(conds) == 1 and conds[0][1]:
@@ -259,7 +259,7 @@ def rule_truncate_noop(ctx):
         n += 1
     # the same decision spelt as a guarded cut: every condition on the cut must be `length < self.length` on the raw argument
     for cut in [s for s in q.assigns(ctx, f, 'self.length')]:
-        for t_, b_, p_ in pr.control_conditions(cut, f.node):
+        for t_, b_, p_ in pr.silent_conditions(cut, f.node):
             if isinstance(p_, ast.With):
                 continue
             cn = q.comparison_normal(ctx, f, t_ if b_ else ast.UnaryOp(op=ast.Not(), operand=t_))
